@@ -109,8 +109,11 @@ Definition ends_slash (s : str) : bool := match rev s with c :: _ => c =? cSLASH
 Definition in_manifest (m : manifest) (p : str) : bool := existsb (fun e => str_eqb (fst e) p) m.
 
 Definition sOBJ := s2l "Object ".
-Definition is_object_folder (m : manifest) (p : str) : bool :=
-  starts_with sOBJ p && ends_slash p && (in_manifest m (p ++ s2l "content.xml") || in_manifest m (p ++ s2l "styles.xml")).
+(* foreign: the folders whose content.xml is not an OpenDocument part (the root element is of another vocabulary: the MathML of
+   a formula object) - what load() finds out by looking at the member (__isOpenDocumentPart); such a folder is no sub-document,
+   its files are carried over as they are *)
+Definition is_object_folder (foreign : str -> bool) (m : manifest) (p : str) : bool :=
+  starts_with sOBJ p && ends_slash p && negb (foreign p) && (in_manifest m (p ++ s2l "content.xml") || in_manifest m (p ++ s2l "styles.xml")).
 
 (* last path component and the folder before it *)
 Fixpoint split_last_slash (s : str) (dir cur : str) : str * str :=
@@ -120,31 +123,31 @@ Fixpoint split_last_slash (s : str) (dir cur : str) : str * str :=
   end.
 Definition is_xml_part_name (n : str) : bool :=
   str_eqb n (s2l "settings.xml") || str_eqb n (s2l "meta.xml") || str_eqb n (s2l "content.xml") || str_eqb n (s2l "styles.xml").
-Definition is_object_part (m : manifest) (p : str) : bool :=
+Definition is_object_part (foreign : str -> bool) (m : manifest) (p : str) : bool :=
   let '(dir, base) := split_last_slash p [] [] in
-  starts_with sOBJ p && negb (str_eqb dir []) && is_xml_part_name base && in_manifest m dir.
+  starts_with sOBJ p && negb (str_eqb dir []) && is_xml_part_name base && in_manifest m dir && negb (foreign dir).
 
 Inductive disposition :=
   | IsPicture | IsThumbnail | IsRootPart | IsRootEntry | IsObject | IsObjectPart | IsExtra.
 
-Definition classify (m : manifest) (p : str) : disposition :=
+Definition classify (foreign : str -> bool) (m : manifest) (p : str) : disposition :=
   if starts_with (s2l "Pictures/") p && negb (str_eqb p (s2l "Pictures/")) then IsPicture
   else if str_eqb p sTHUMB then IsThumbnail
   else if is_xml_part_name p then IsRootPart
   else if str_eqb p [cSLASHc] || str_eqb p sTHUMBDIR then IsRootEntry
-  else if is_object_folder m p then IsObject
-  else if is_object_part m p then IsObjectPart
+  else if is_object_folder foreign m p then IsObject
+  else if is_object_part foreign m p then IsObjectPart
   else IsExtra.
 
 (* the loaded document, from the manifest and a reader for member bytes *)
-Definition load_m (m : manifest) (member : str -> str) (mimetype : str) (root_settings : bool) (obj_settings : str -> bool) : topdoc :=
-  let pics := flat_map (fun e => match classify m (fst e) with IsPicture => [mkPic (fst e) (member (fst e)) (snd e)] | _ => [] end) m in
-  let objs := flat_map (fun e => match classify m (fst e) with
+Definition load_m (foreign : str -> bool) (m : manifest) (member : str -> str) (mimetype : str) (root_settings : bool) (obj_settings : str -> bool) : topdoc :=
+  let pics := flat_map (fun e => match classify foreign m (fst e) with IsPicture => [mkPic (fst e) (member (fst e)) (snd e)] | _ => [] end) m in
+  let objs := flat_map (fun e => match classify foreign m (fst e) with
                                  | IsObject => [ODoc (snd e) (cSLASHc :: removelast (fst e)) (obj_settings (fst e)) [] []]
                                  | _ => [] end) m in
-  let thumb := match find (fun e => match classify m (fst e) with IsThumbnail => true | _ => false end) m with
+  let thumb := match find (fun e => match classify foreign m (fst e) with IsThumbnail => true | _ => false end) m with
                | Some e => Some (member sTHUMB, snd e) | None => None end in
-  let extras := flat_map (fun e => match classify m (fst e) with
+  let extras := flat_map (fun e => match classify foreign m (fst e) with
                                    | IsExtra => [(fst e, snd e, if ends_slash (fst e) then None else Some (member (fst e)))]
                                    | _ => [] end) m in
   mkTop (ODoc mimetype [] root_settings pics objs) thumb extras.
